@@ -24,6 +24,10 @@ REQUIRED_THEOREMS = [
     "TapkeeVerif.C10.rotation_equivariance",
     "TapkeeVerif.C10.fullForm_rotate",
     "TapkeeVerif.C10.project_rotate",
+    "TapkeeVerif.C10.lltsa_lhs_expanded",
+    "TapkeeVerif.C10.fullForm_centredForm",
+    "TapkeeVerif.C10.lltsa_problem_translation_invariant",
+    "TapkeeVerif.C10.preshift_lltsa_not_translation_invariant",   # regression witness of F-LLTSA-SHIFT
     "TapkeeVerif.C10.prefix_solver_sees_XMXt_refuted",      # regression witness of F-LIN-TRI (pre-fix routines)
     "TapkeeVerif.C10.prefix_lltsa_lhs_upper_eq",            # regression witness of F-LLTSA-CENTRE
 ]
